@@ -4,7 +4,7 @@
      crop_bezier(seg, t0, t1)                         path.py 577-596
      Line.reversed / cropped / split                  path.py 707, 801, 806
      QuadraticBezier / CubicBezier .reversed/.split/.cropped
-     Arc.reversed / split / cropped                   path.py 1924, 2296, 2301
+     (Arc.reversed / split / cropped: Model/CropArc.v)
      Path.reversed                                    path.py 2531
      Path.cropped                                     path.py 3031-3090
 
@@ -13,14 +13,22 @@
        `trimmed_seg.radialrange(pt1)[0][1]` (a numeric minimiser, C13):
        its answer [t1adj] is an input of the model;
      * Path.cropped asks Path.T2t for (index, t) of T0 and T1 (C05): the two
-       answers [r0], [r1] are inputs (path_cropped_T2t plugs in Model/PathIdx.v's
-       T2t), and isclosed() (which can raise AssertionError) is the input [closed].
-   Exceptions are values of PathIdx.res (Err EAssert = AssertionError,
-   Err EValue = ValueError, Err EIndex = IndexError). *)
+       answers [r0], [r1] are inputs (path_cropped_T2t plugs in a T2t function,
+       e.g. Model/PathIdx.v's), and isclosed() (which can raise AssertionError)
+       is the input [closed].
+   Exceptions are values of [res] (Err EAssert = AssertionError,
+   Err EValue = ValueError, Err EIndex = IndexError; EBug / EZeroDiv / ERuntime
+   can only come in through the T2t answers). *)
 From Coq Require Import ZArith List Bool Arith.
-From SVP Require Import Base.Num Base.Cplx Model.Bezier Model.Arc Model.PathIdx.
+From SVP Require Import Base.Num Base.Cplx Model.Bezier.
 Import ListNotations.
 Set Implicit Arguments.
+
+(* outcomes: a value or the class of the exception raised.  (Self-contained
+   on purpose: Model/PathIdx.v has types of the same shape for C05.) *)
+Inductive perr := EValue | EAssert | EIndex | EBug | EZeroDiv | ERuntime.
+Inductive res (A : Type) := Ok (a : A) | Err (e : perr).
+Arguments Ok {A} _. Arguments Err {A} _.
 
 Definition rbind {A B} (r : res A) (f : A -> res B) : res B :=
   match r with Ok a => f a | Err e => Err e end.
@@ -78,48 +86,6 @@ Section CropBezier.
 End CropBezier.
 
 (* ================================================================== *)
-(* Arc: at the level of the constructor arguments                      *)
-(* ================================================================== *)
-Section CropArc.
-  Context {K : Type} (N : Num K) (T : NumT K).
-
-  (* the six constructor arguments *)
-  Definition arc_args : Type := (Cplx K * Cplx K * K * bool * bool * Cplx K)%type.
-  Definition arc_of_args (a : arc_args) : ArcP K :=
-    let '(s, r, rot, la, sw, e) := a in arc_init N T s r rot la sw e.
-
-  (* Arc.cropped:
-       if abs(self.delta*(t1 - t0)) <= 180: new_large_arc = 0  else: new_large_arc = 1
-       return Arc(self.point(t0), radius=self.radius, rotation=self.rotation,
-                  large_arc=new_large_arc, sweep=self.sweep, end=self.point(t1),
-                  autoscale_radius=self.autoscale_radius) *)
-  Definition arc_crop_large (P : ArcP K) (t0 t1 : K) : bool :=
-    negb (leb N (nabs N (mul N (a_delta P) (sub N t1 t0))) (d180 N)).
-  Definition arc_cropped_args (P : ArcP K) (t0 t1 : K) : arc_args :=
-    (arc_point N T P t0, a_radius P, a_rotation P, arc_crop_large P t0 t1, a_sweep P,
-     arc_point N T P t1).
-  (* Arc.__init__ asserts start != end (radius != 0 holds for a stored radius) *)
-  Definition arc_args_ok (a : arc_args) : bool :=
-    let '(s, r, _, _, _, e) := a in arc_admissible N s r e.
-  Definition arc_cropped (P : ArcP K) (t0 t1 : K) : res (ArcP K) :=
-    let a := arc_cropped_args P t0 t1 in
-    if arc_args_ok a then Ok (arc_of_args a) else Err EAssert.
-
-  (* Arc.reversed: Arc(self.end, self.radius, self.rotation, self.large_arc,
-                       not self.sweep, self.start) *)
-  Definition arc_reversed_args (P : ArcP K) : arc_args :=
-    (a_end P, a_radius P, a_rotation P, a_large P, negb (a_sweep P), a_start P).
-  Definition arc_reversed (P : ArcP K) : res (ArcP K) :=
-    let a := arc_reversed_args P in
-    if arc_args_ok a then Ok (arc_of_args a) else Err EAssert.
-
-  (* Arc.split: return self.cropped(0, t), self.cropped(t, 1) *)
-  Definition arc_split (P : ArcP K) (t : K) : res (ArcP K * ArcP K) :=
-    rbind (arc_cropped P (zero N) t) (fun a =>
-    rbind (arc_cropped P t (one N)) (fun b => Ok (a, b))).
-End CropArc.
-
-(* ================================================================== *)
 (* Path.reversed                                                       *)
 (*   newpath = [seg.reversed() for seg in self]; newpath.reverse()     *)
 (* ================================================================== *)
@@ -136,8 +102,12 @@ End PathReversed.
    self[p_idx].cropped(p_a, p_b) *)
 Record piece (S K : Type) := mkPiece { p_orig : bool; p_idx : nat; p_a : K; p_b : K; p_seg : S }.
 
+(* self[a:b] *)
+Definition slice {A} (p : list A) (a b : nat) : list A := firstn (b - a) (skipn a p).
+
 Section PathCropped.
   Context {K : Type} (N : Num K) {S : Type}.
+  Definition in01 (T : K) : bool := leb N (zero N) T && leb N T (one N).
   Variable crop : S -> K -> K -> res S.       (* seg.cropped(t0, t1) *)
   Variable seq : S -> S -> bool.              (* Python == on segments *)
   Variables atol rtol : K.                    (* np.isclose defaults 1e-8, 1e-5 *)
@@ -247,7 +217,7 @@ Section PathCropped.
        if T0 == 1 and 0 < T1 < 1 and self.isclosed(): return self.cropped(0, T1) *)
   Definition path_cropped (segs : list S) (T0 T1 : K) (r0 r1 : res (Z * K))
              (closed : res bool) : res (list (piece S K)) :=
-    if negb (in01 N T0 && in01 N T1) then Err EAssert
+    if negb (in01 T0 && in01 T1) then Err EAssert
     else if eqb N T0 T1 then Err EAssert
     else if eqb N T0 (one N) && eqb N T1 (zero N) then Err EAssert
     else if eqb N T0 (one N) && ltb N (zero N) T1 && ltb N T1 (one N) then
@@ -259,20 +229,17 @@ Section PathCropped.
   Definition piece_segs (ps : list (piece S K)) : list S := map (@p_seg S K) ps.
 End PathCropped.
 
-(* Path.cropped with Model/PathIdx.v's T2t and isclosed plugged in:
-   [tl] = the tagged segment lengths, [start_]/[end_]/[peq] = the end points
-   and Python's == on them *)
+(* Path.cropped with a T2t function plugged in ([t2t] = self.T2t, e.g.
+   PathIdx.T2t N comp cl fb tl for the tagged segment lengths tl) *)
 Section PathCroppedT2t.
-  Context {K : Type} (N : Num K) {S P : Type}.
+  Context {K : Type} (N : Num K) {S : Type}.
   Variable crop : S -> K -> K -> res S.
   Variable seq : S -> S -> bool.
   Variables atol rtol : K.
-  Variables (start_ end_ : S -> P) (peq : P -> P -> bool).
-  Definition path_cropped_T2t (comp : bool) (segs : list S) (tl : list (bool * K)) (T0 T1 : K)
+  Variable t2t : K -> res (Z * K).
+  Definition path_cropped_T2t (segs : list S) (T0 T1 : K) (closed : res bool)
     : res (list (piece S K)) :=
-    path_cropped N crop seq atol rtol segs T0 T1
-                 (T2t N comp false tl T0) (T2t N comp false tl T1)
-                 (isclosed start_ end_ peq segs).
+    path_cropped N crop seq atol rtol segs T0 T1 (t2t T0) (t2t T1) closed.
 End PathCroppedT2t.
 
 (* binary64 values of numpy's default tolerances *)
